@@ -556,6 +556,7 @@ fn name_hex(s: &str) -> String {
 
 pub fn c16(rep: &mut Report, n: usize, seed: u64) {
     let mut rng = Rng::new(seed);
+    crate::scope::deep_attempt_scope(rep, "C16", n > 10_000);
     let mut done = 0;
     while done < n {
         let Some((flags, pat, re, hays)) = api_regex(&mut rng) else { continue };
